@@ -204,9 +204,41 @@ def run(prog, rep, tier):
         q = o.get("c") or o.get("m")
         return place_role(b, q) if q is not None else None
 
+    def selected_lists(b, o, depth=4):
+        """`let bucket = match (..) { .. => &mut result.matched, .. => &mut result.unmatched_asn, .. }; bucket.push(x)`: the receiver
+        is one of several lists, chosen where the reference is taken -- [(list, block that selects it)]."""
+        out, seen_l = [], set()
+        q = o.get("c") or o.get("m")
+        work = [(q["l"], depth)] if q is not None else []
+        while work:
+            l_, d_ = work.pop()
+            if l_ in seen_l or d_ <= 0:
+                continue
+            seen_l.add(l_)
+            for bi2, si2, s2 in b.defs().get(l_, []):
+                if bi2 not in b.live or si2 == "t":
+                    continue
+                rv2 = s2["rv"]
+                if rv2["r"] in ("ref", "rawptr"):
+                    nm_ = [e.get("n") for e in rv2["p"].get("p") or [] if isinstance(e, dict) and e.get("n") in LISTS]
+                    if nm_:
+                        out.append((nm_[0], bi2))
+                    else:
+                        work.append((rv2["p"]["l"], d_ - 1))
+                elif rv2["r"] in ("use", "cast"):
+                    q2 = rv2["o"].get("c") or rv2["o"].get("m")
+                    if q2 is not None:
+                        work.append((q2["l"], d_ - 1))
+        return out
+
     pushes = {}
     for b in bodies:
         for bi, t in b.calls(re.compile(r".*Vec::<T, A>::push")):
+            sel = selected_lists(b, t["args"][0])
+            if len({x for x, _ in sel}) >= 2:
+                for f, sb in sel:
+                    pushes.setdefault(f, []).append((b, sb))
+                continue
             f = operand_role(b, t["args"][0])
             if f:
                 pushes.setdefault(f, []).append((b, bi))
